@@ -16,6 +16,43 @@ type typeTab struct {
 	tagOf    map[string]int
 	nextTag  int
 	kindSeen map[string]bool
+	tyStarts []tyStartInfo
+}
+
+type tyStartInfo struct {
+	fn string
+	st *types.Struct
+	n  int64
+}
+
+// containsByValue: does struct a hold a value of struct type b (directly, in an array, or nested)?
+func containsByValue(a, b *types.Struct) bool {
+	var walk func(t types.Type, depth int) bool
+	walk = func(t types.Type, depth int) bool {
+		if depth > 12 {
+			return true // give up: assume containment (no axiom)
+		}
+		switch u := t.Underlying().(type) {
+		case *types.Struct:
+			if types.Identical(u, b) {
+				return true
+			}
+			for i := 0; i < u.NumFields(); i++ {
+				if walk(u.Field(i).Type(), depth+1) {
+					return true
+				}
+			}
+		case *types.Array:
+			return walk(u.Elem(), depth+1)
+		}
+		return false
+	}
+	for i := 0; i < a.NumFields(); i++ {
+		if walk(a.Field(i).Type(), 0) {
+			return true
+		}
+	}
+	return false
 }
 
 func newTypeTab(vc *VC) *typeTab {
@@ -432,6 +469,14 @@ func (tt *typeTab) tyStart(t types.Type, v Term) (Term, bool) {
 		tt.vc.heapDecl["fn:"+fn] = true
 		tt.vc.cmd("(declare-fun " + fn + " (Int Int) Bool)")
 		tt.vc.cmd(fmt.Sprintf("(assert (forall ((o Int) (a Int) (b Int)) (! (=> (and (%s o a) (%s o b) (< a b)) (<= (+ a %d) b)) :pattern ((%s o a) (%s o b)))))", fn, fn, n, fn, fn))
+		// instances of two struct types neither of which contains the other by value never overlap
+		for _, o := range tt.tyStarts {
+			if containsByValue(st, o.st) || containsByValue(o.st, st) {
+				continue
+			}
+			tt.vc.cmd(fmt.Sprintf("(assert (forall ((o Int) (a Int) (b Int)) (! (=> (and (%s o a) (%s o b)) (or (<= (+ a %d) b) (<= (+ b %d) a))) :pattern ((%s o a) (%s o b)))))", fn, o.fn, n, o.n, fn, o.fn))
+		}
+		tt.tyStarts = append(tt.tyStarts, tyStartInfo{fn, st, n})
 	}
 	return Or(Eq(PObj(v), IntLit(0)), Term{app(fn, PObj(v), POff(v)), SBool}), true
 }
